@@ -705,11 +705,11 @@ func fileEmptyTests(p *core.Program) map[*types.Func]bool {
 					onlyBody = false
 					return
 				}
-				if id, isNil := ast.Unparen(b.Y).(*ast.Ident); isNil && id.Name == "nil" && isRole(p, core.FieldOf(info, b.X), "file.body") {
+				if id, isNil := ast.Unparen(b.Y).(*ast.Ident); isNil && id.Name == "nil" && roleValue(p, info, b.X, "file.body") {
 					return
 				}
 				if k, isC := core.ConstInt(info, b.Y); isC && k == 0 {
-					if lc, isCall := ast.Unparen(b.X).(*ast.CallExpr); isCall && strings.HasSuffix(core.CalleeName(info, lc), ").Len") && isRole(p, core.FieldOf(info, recvOf(lc)), "file.body") {
+					if lc, isCall := ast.Unparen(b.X).(*ast.CallExpr); isCall && strings.HasSuffix(core.CalleeName(info, lc), ").Len") && roleValue(p, info, recvOf(lc), "file.body") {
 						hasLen = true
 						return
 					}
